@@ -70,40 +70,76 @@ def definitions(only=None):
                 if kind in ("Fixpoint",):
                     names += re.findall(r"\bwith\s+([A-Za-z_][A-Za-z_0-9']*)\s*[({]", sent)
                 for n in names:
-                    defs.setdefault(n, set()).update(ids - {n})
+                    defs.setdefault(n, {}).setdefault("%s/%s" % (sub, fn), set()).update(ids - {n})
     return defs
+
+
+_closure_cache = {}
+
+
+def visible_from(f):
+    """files whose definitions a file can name: its MiniMcmc import closure (itself included)"""
+    import common
+    if f not in _closure_cache:
+        _closure_cache[f] = set(common.coq_closure(f))
+    return _closure_cache[f]
 
 
 def statements(pid):
     """theorem name -> identifiers of its statement"""
     text = strip_comments(open(os.path.join(COQ, "Properties", pid + ".v")).read())
     res = {}
+    bound = set()                                  # names bound as section variables / binders: not references
+    for m in re.finditer(r"\b(?:Variables?|Hypothes[ie]s)\s+([A-Za-z_0-9' ]+):", text):
+        bound |= set(m.group(1).split())
+    for m in re.finditer(r"\bContext\s*[{(]([A-Za-z_0-9' ]+):", text):
+        bound |= set(m.group(1).split())
     for m in re.finditer(r"\b(Theorem|Example|Corollary)\s+([A-Za-z_0-9']+)(.*?)\bProof\b", text, re.S):
-        res[m.group(2)] = set(IDENT.findall(m.group(3)))
+        st = m.group(3)
+        loc = set(bound)
+        for b in re.finditer(r"[({]([A-Za-z_0-9' ]+):", st):
+            loc |= set(b.group(1).split())
+        for b in re.finditer(r"\b(?:forall|exists|fun)\s+([A-Za-z_0-9' ]+?)\s*[,:=(]", st):
+            loc |= set(b.group(1).split())
+        res[m.group(2)] = set(IDENT.findall(st)) - loc
     # section Variables / Hypotheses / Let are part of the statements
     extra = set()
     for m in re.finditer(r"\b(?:Variables?|Hypothes[ie]s|Context|Let)\b(.*?)\.\s", text, re.S):
         extra |= set(IDENT.findall(m.group(1)))
-    return res, extra
+    return res, extra - bound
 
 
 def entry_points(casedir, defs):
+    """(name, file) pairs named in the evaluated cases files, resolved through the files the cases import"""
     e0 = set()
     if os.path.isdir(casedir):
         for fn in os.listdir(casedir):
             if fn.endswith(".v"):
-                e0 |= set(IDENT.findall(open(os.path.join(casedir, fn)).read())) & set(defs)
-    return {n for n in e0 if not re.fullmatch(r"c\d+|results", n)}     # the cases file's own names
+                text = open(os.path.join(casedir, fn)).read()
+                vis = set()
+                for m in re.finditer(r"From MiniMcmc Require (?:Import|Export) ((?:[A-Za-z_][A-Za-z_0-9]*(?:\.[A-Za-z_][A-Za-z_0-9]*)*[ \t]*)+)\.(?:\s|$)", text):
+                    for mod in m.group(1).split():
+                        vis |= visible_from(mod.replace(".", "/") + ".v")
+                for n in set(IDENT.findall(text)) & set(defs):
+                    if not re.fullmatch(r"c\d+|results", n):          # the cases file's own names
+                        e0 |= {(n, f) for f in defs[n] if f in vis}
+    return e0
 
 
 def closure(e0, defs):
+    """(name, file) pairs reachable through definition bodies; a name in a body resolves only to definitions in
+    files the defining file imports"""
     reached, todo = set(), list(e0)
     while todo:
-        n = todo.pop()
-        if n in reached:
+        n, f = todo.pop()
+        if (n, f) in reached:
             continue
-        reached.add(n)
-        todo.extend(x for x in defs.get(n, ()) if x in defs and x not in reached)
+        reached.add((n, f))
+        vis = visible_from(f)
+        for x in defs[n][f]:
+            for g in defs.get(x, ()):
+                if g in vis and (x, g) not in reached:
+                    todo.append((x, g))
     return reached
 
 
@@ -117,25 +153,27 @@ def audit(pid, casedir):
     if os.path.isdir(root):
         for other in sorted(os.listdir(root)):
             if other != pid:
-                for n in closure(entry_points(os.path.join(root, other), defs), defs):
-                    via.setdefault(n, other)
+                for nf in closure(entry_points(os.path.join(root, other), defs), defs):
+                    via.setdefault(nf, other)
     stm, extra = statements(pid)
-    import common
-    visible = set(definitions(only=set(common.coq_closure("Properties/%s.v" % pid))))
-    spoken = {}
+    pvis = visible_from("Properties/%s.v" % pid)
+    spoken = {}                                   # (name, file) -> theorems
     for th, ids in stm.items():
-        for n in (ids | extra) & visible:
-            spoken.setdefault(n, []).append(th)
+        for n in (ids | extra) & set(defs):
+            for f in defs[n]:
+                if f in pvis:
+                    spoken.setdefault((n, f), []).append(th)
     allow = {}
     p = os.path.join(COQ, "tie_allow.json")
     if os.path.exists(p):
         allow = json.load(open(p))
-    unreached = sorted(n for n in spoken if n not in reached)
-    explained = {n: allow[n] for n in unreached if n in allow}
-    explained.update({n: "evaluated by the correspondence check of %s (its last run's cases)" % via[n]
-                      for n in unreached if n not in allow and n in via})
-    unexplained = {n: sorted(set(spoken[n]))[:4] for n in unreached if n not in explained}
-    return {"evaluated_entry_points": sorted(e0)[:60],
+    unreached = sorted(nf for nf in spoken if nf not in reached)
+    label = lambda nf: "%s (%s)" % (nf[0], nf[1][:-2])
+    explained = {label(nf): "evaluated by the correspondence check of %s (its last run's cases)" % via[nf]
+                 for nf in unreached if nf in via}
+    explained.update({label(nf): allow[nf[0]] for nf in unreached if nf not in via and nf[0] in allow})
+    unexplained = {label(nf): sorted(set(spoken[nf]))[:4] for nf in unreached if label(nf) not in explained}
+    return {"evaluated_entry_points": sorted({n for n, f in e0})[:60],
             "model_definitions_reached_by_evaluated_cases": len(reached),
             "model_definitions_in_theorem_statements": len(spoken),
             "of_those_reached": len(spoken) - len(unreached),
